@@ -33,6 +33,7 @@ fn main() {
         "C07T" => c07::run_threads(seed, tier, &mut out),
         "C07G" => c07::run_glue(seed, tier, &mut out),
         "C10" => c10::run(seed, tier, &mut out),
+        "C10R" => c10::run_render(seed, tier, &mut out),
         "C08" => c08::run(seed, tier, &mut out),
         "C08S" => c08s::run(seed, tier, &mut out),
         "C14" => c14::run(seed, tier, &mut out),
